@@ -51,24 +51,46 @@ int g_env_readers = 0;
 typedef struct { cfg_t c; int force; uint64_t flen; int n; char **frags; int misalign;
                  const unsigned char *expect; uint64_t expect_len; int *verdict; } dec_a;
 
-/* copies of the fragments at 16-byte aligned or deliberately mis-aligned addresses */
+/* copies of the fragments at 16-byte aligned or deliberately mis-aligned addresses.  Every third call puts the copies on
+   READ-ONLY pages that are followed by an unmapped page (same alignment classes): a write into a caller's fragment — even a
+   transient one that restores the bytes — or a read past the declared length then faults instead of going unnoticed.  The
+   other calls use exactly sized heap blocks, where the sanitizer sees the first byte read or written out of bounds. */
+typedef struct { void *map; size_t maplen; } placed_t;
+static unsigned g_place_calls = 0;
 static char **place(char **frags, int n, uint64_t flen, int misalign, char ***bases) {
     char **out = malloc(sizeof(char *) * (n ? n : 1));
-    *bases = malloc(sizeof(char *) * (n ? n : 1));
+    placed_t *pl = malloc(sizeof(placed_t) * (n ? n : 1));
+    *bases = (char **)pl;
+    int ro = (g_place_calls++ % 3) == 1;
+    stat_add(ro ? "place.readonly_calls" : "place.heap_calls", 1);
     for (int i = 0; i < n; i++) {
-        void *b = NULL;
         int off = misalign ? (1 + (int)((i * 7 + misalign) % 15)) : 0;
-        /* exactly off + flen bytes: a read beyond fragment_len is a read beyond the allocation */
-        if (posix_memalign(&b, 16, flen + (size_t)off + (flen + (size_t)off == 0)) != 0) abort();
-        (*bases)[i] = b;
-        out[i] = (char *)b + off;
-        memcpy(out[i], frags[i], flen);
+        if (ro) {
+            size_t pg = 4096, pages = ((size_t)flen + 16 + pg - 1) / pg + 1;
+            unsigned char *map = mmap(NULL, (pages + 1) * pg, PROT_READ | PROT_WRITE, MAP_PRIVATE | MAP_ANONYMOUS, -1, 0);
+            if (map == MAP_FAILED) abort();
+            /* as close to the unmapped page as the alignment class allows (0..15 bytes of slack) */
+            uintptr_t end = (uintptr_t)map + pages * pg, start = end - (size_t)flen;
+            start -= (start - (uintptr_t)off) % 16;
+            out[i] = (char *)start;
+            memcpy(out[i], frags[i], flen);
+            mprotect(map, pages * pg, PROT_READ); mprotect(map + pages * pg, pg, PROT_NONE);
+            pl[i].map = map; pl[i].maplen = (pages + 1) * pg;
+        } else {
+            void *b = NULL;
+            /* exactly off + flen bytes: a read beyond fragment_len is a read beyond the allocation */
+            if (posix_memalign(&b, 16, flen + (size_t)off + (flen + (size_t)off == 0)) != 0) abort();
+            pl[i].map = b; pl[i].maplen = 0;
+            out[i] = (char *)b + off;
+            memcpy(out[i], frags[i], flen);
+        }
     }
     return out;
 }
 static void unplace(char **p, char **bases, int n) {
-    for (int i = 0; i < n; i++) free(bases[i]);
-    free(p); free(bases);
+    placed_t *pl = (placed_t *)bases;
+    for (int i = 0; i < n; i++) { if (pl[i].maplen) munmap(pl[i].map, pl[i].maplen); else free(pl[i].map); }
+    free(p); free(pl);
 }
 
 static void run_dec(void *va, FILE *out) {
